@@ -27,6 +27,10 @@ _cached_engine: Optional["MerchantEngine"] = None
 _cached_engine_path: Optional[str] = None
 
 
+class RulesLoadError(ValueError):
+    """A .rules file exists but cannot be read or parsed."""
+
+
 def get_cached_engine() -> Optional["MerchantEngine"]:
     """Get the cached MerchantEngine if available."""
     return _cached_engine
@@ -185,8 +189,11 @@ def get_all_rules(rules_path=None, match_mode='first_match'):
                         list(rule.tags)
                     ))
                 return user_rules_with_source
-            except Exception:
-                pass  # Fall through to CSV handling if .rules parsing fails
+            except Exception as e:
+                # Never treat an unloadable .rules file as "no rules": the CSV
+                # reader below would read nothing out of it and every
+                # transaction would silently become Unknown.
+                raise RulesLoadError(f"Error loading rules file {rules_path}: {e}") from e
 
         # CSV format (legacy)
         user_rules = load_merchant_rules(rules_path)
